@@ -119,6 +119,25 @@ pub fn gen_scenario(rng: &mut Rng, idx: u64, mode: CheckMode) -> (Cell, [f64; 6]
             cell.env[k] = designed;
         }
     }
+    // a sixth of the cells with a base: the base mesh itself is a designed box next to a link (2..6) or the tool
+    // at this posture, so that base-link and tool-base pairs are decided as sharply as the environment pairs
+    if with_base && rng.bool(0.17) {
+        let target = if with_tool && rng.bool(0.5) { J_TOOL } else { 1 + rng.usize(5) };
+        let r = cell.safety.lookup(target, J_BASE);
+        let d = if r <= NEVER_COLLIDES {
+            rng.range(-0.02, 0.01)
+        } else if r == 0.0 {
+            rng.sign() * rng.logu(3.0 * band, 0.04)
+        } else {
+            let r = r as f64;
+            let mut d = r * rng.range(0.0, 2.0);
+            if (d - r).abs() < 3.0 * band {
+                d = r + 3.0 * band * rng.sign();
+            }
+            d
+        };
+        cell.design_base(rng, &q, target, d);
+    }
     (cell, q)
 }
 
